@@ -799,7 +799,10 @@ def m_now(I, st, args, dty, site):
 @model('std::time::SystemTime::duration_since')
 def m_duration_since(I, st, args, dty, site):
     s1, s2 = st.clone(), st.clone()
-    return [(s1, ok(dur_top(I, s1, 'since_epoch'))), (s2, err(('s', 'std::time::SystemTimeError', (), ('std::time::SystemTime::duration_since',))))]
+    d = dur_top(I, s1, 'since_epoch')
+    # A-CLOCK: the system clock is before the last representable year (5_879_611): seconds since 1970 < 1.855e14
+    D.set_iv(s1, d[2][0][1], 0, 185_480_451_590_399)
+    return [(s1, ok(d)), (s2, err(('s', 'std::time::SystemTimeError', (), ('std::time::SystemTime::duration_since',))))]
 
 
 # ---------------------------------------------------------------- formatting (total, opaque)
@@ -853,6 +856,8 @@ def as_iter(I, st, x):
     if x[0] == 'a':
         return ('it', 'seq', x[1], 0, False)
     if x[0] == 'slice':
+        if x[1].get('vec') is not None:
+            return ('it', 'vec', x[1]['vec'], True)
         if x[1].get('elems') is not None:
             return ('it', 'seq', x[1]['elems'], 0, True)
         return ('it', 'unk', {'k': 'ref', 'mut': False, 'to': x[1].get('elem_ty') or {'k': 'other'}}, x[1]['len'])
@@ -864,12 +869,16 @@ def as_iter(I, st, x):
             return ('it', 'seq', tgt[1], 0, True)
         if tgt[0] == 'obj':
             o = st.objs.get(tgt[1])
-            if o is not None and o[0] in ('Vec', 'Set'):
+            if o is not None and o[0] == 'Vec':
+                return ('it', 'vec', tgt[1], True)
+            if o is not None and o[0] == 'Set':
                 return ('it', 'unk', {'k': 'ref', 'mut': False, 'to': o[2] or {'k': 'other'}}, o[1])
         return None
     if x[0] == 'obj':
         o = st.objs.get(x[1])
-        if o is not None and o[0] in ('Vec', 'Set'):
+        if o is not None and o[0] == 'Vec':
+            return ('it', 'vec', x[1], False)
+        if o is not None and o[0] == 'Set':
             return ('it', 'unk', o[2] or {'k': 'other'}, o[1])
     return None
 
@@ -897,6 +906,16 @@ def iter_next(I, st, it, item_ty):
         if byref:
             e = ('r', I.alloc(st, e))
         return [(st, ('it', 'seq', elems, pos + 1, byref), some(e))]
+    if k == 'anyof':
+        elems, byref = it[2], it[3]
+        s1, s2 = st.clone(), st.clone()
+        outs = [(s1, it, none())]
+        if elems:
+            e = I.join_many(s2, list(elems))
+            if byref:
+                e = ('r', I.alloc(s2, e))
+            outs.append((s2, it, some(e)))
+        return outs
     if k == 'unk':
         s1, s2 = st.clone(), st.clone()
         ty = it[2] if it[2] is not None else item_ty
@@ -909,7 +928,11 @@ def iter_next(I, st, it, item_ty):
             outs.append((s2, it, some(v)))
         return outs
     if k == 'range':
-        start, end, exh = it[2]
+        if len(it[2]) == 3:
+            start, end, exh = it[2]
+        else:
+            start, end = it[2][0], it[2][1]
+            exh = const_int(0, 'bool')
         inclusive = it[1] == RANGE_INC
         if start[0] == 'i' and end[0] == 'i':
             (sl, sh), (el, eh) = D.get_iv(st, start[1]), D.get_iv(st, end[1])
@@ -919,8 +942,10 @@ def iter_next(I, st, it, item_ty):
                     return [(st, it, none())]
                 if inclusive and sl == el:
                     nit = ('s', it[1], (start, end, const_int(1, 'bool')), None)
-                else:
+                elif len(it[2]) == 3:
                     nit = ('s', it[1], (const_int(sl + 1, start[2]), end, exh), None)
+                else:
+                    nit = ('s', it[1], (const_int(sl + 1, start[2]), end), None)
                 return [(st, nit, some(start))]
             s1, s2 = st.clone(), st.clone()
             hi = eh if inclusive else eh - 1
@@ -964,6 +989,33 @@ def iter_next(I, st, it, item_ty):
             piece = {'len': n[1], 'elems': None, 'elem_ty': sl.get('elem_ty'), 'ident': next(StrV._ids)}
             outs.append((s2, it, some(('slice', piece))))
         return outs
+    if k == 'vec':
+        oid, byref = it[2], it[3]
+        vec_sync(I, st, oid)
+        o = st.objs.get(oid)
+        s1, s2 = st.clone(), st.clone()
+        outs = [(s1, it, none())]
+        if o is None or D.get_iv(s2, o[1])[1] >= 1:
+            if o is not None:
+                D.set_iv(s2, o[1], max(D.get_iv(s2, o[1])[0], 1), D.get_iv(s2, o[1])[1])
+                e = conc_elem(I, s2, o[3], o[2])
+            else:
+                e = ('top', None)
+            if byref:
+                e = ('r', I.alloc(s2, e))
+            outs.append((s2, it, some(e)))
+        return outs
+    if k == 'strs':
+        sv = it[2]
+        s1, s2 = st.clone(), st.clone()
+        outs = [(s1, it, none())]
+        hi = D.get_iv(s2, sv.len)[1] if sv is not None else USIZE_MAX
+        nv = D.fresh_vid(s2, 0, hi if hi != INF else USIZE_MAX)
+        if sv is not None:
+            D.rel_set(s2, nv, sv.len, '<=')
+        piece = StrV(nv, ascii_=True if (sv is not None and sfacts(s2, sv)['ascii']) else None)
+        outs.append((s2, it, some(('str', piece))))
+        return outs
     if k == 'chars':
         sv, pos = it[2], it[3]
         lo, hi = D.get_iv(st, sv.len)
@@ -974,12 +1026,26 @@ def iter_next(I, st, it, item_ty):
             return [(st, it, none())]
         s1, s2 = st.clone(), st.clone()
         if not (pos == 0 and lo >= 1):
-            outs.append((s1, ('it', 'chars', sv, None), none()))
-        if hi >= 1:
-            c = I.top(s2, {'k': 'char'}, 'ch', lo=0, hi=127 if sv.ascii else 0x10FFFF)
+            outs.append((s1, ('it', 'chars', sv, pos), none()))
+        need = (pos + 1) if isinstance(pos, int) else 1
+        if hi >= need and D.set_iv(s2, sv.len, max(lo, need), hi):
+            if pos == 0:
+                # the first char of a given string value is one value: reuse its vid so that a refinement
+                # (a match on it) is seen by every later `chars().next()` on the same string
+                f = s2.objs.get(('sf', sv.ident)) or {}
+                fv = f.get('first_vid')
+                if fv is None:
+                    c = I.top(s2, {'k': 'char'}, 'first_char', lo=0, hi=127 if sv.ascii else 0x10FFFF)
+                    set_sfact(s2, sv, first_vid=c[1])
+                    set_sfact(s1, sv, first_vid=c[1])
+                else:
+                    s2.iv.setdefault(fv, D.get_iv(s2, fv))
+                    c = ('i', fv, 'char')
+            else:
+                c = I.top(s2, {'k': 'char'}, 'ch', lo=0, hi=127 if sv.ascii else 0x10FFFF)
             if pos == 0 and sv.first is not None:
                 c = const_int(ord(sv.first), 'char')
-            outs.append((s2, ('it', 'chars', sv, None), some(c)))
+            outs.append((s2, ('it', 'chars', sv, pos + 1 if isinstance(pos, int) else None), some(c)))
         return outs
     s1, s2 = st.clone(), st.clone()
     return [(s1, it, none()), (s2, it, some(I.top(s2, item_ty, 'item') if item_ty else ('top', None)))]
@@ -1154,10 +1220,22 @@ def m_iter_adapter(I, st, args, dty, site):
     it = as_iter(I, st, args[0])
     clo = args[1]
     s = st.clone()
+    if it is not None and it[0] == 'it' and it[1] == 'vec':
+        vec_sync(I, s, it[2])
+        o = s.objs.get(it[2])
+        if o is not None and o[0] == 'Vec' and (o[3] is None and D.get_iv(s, o[1])[0] == 0 and D.TERM.get(o[1], ('',))[0] != 'join' and o[1] in D.CONSTVAL
+                                               or D.get_iv(s, o[1])[1] == 0):
+            return [(st, ('it', 'unk', None, None))]     # provably empty collection: the closure never runs
+        if o is not None and o[0] == 'Vec' and not D.set_iv(s, o[1], 1, INF):
+            return [(st, ('it', 'unk', None, None))]
     item = probe_item(I, s, it, clo)
     by_ref = site['callee'].endswith('take_while') or site['callee'].endswith('filter')
+    if it is not None and it[0] == 'it' and it[1] == 'vec' and it[3]:
+        by_ref = True       # items of a by-reference iteration are references
     arg = ('r', I.alloc(s, item)) if by_ref else item
     r = _closure_probe(I, s, clo, [arg], site)
+    if by_ref and it is not None and it[0] == 'it' and it[1] == 'chars' and it[3] == 0:
+        return [(st, ('it', 'sub', it))]      # yields a subsequence of the chars of it[2]
     return [(st, ('it', 'unk', None, None))]
 
 
@@ -1170,6 +1248,11 @@ def probe_item(I, st, it, clo):
             ty = b['locals'][2]
     if it is not None and it[0] == 'it' and it[1] == 'chars':
         return I.top(st, {'k': 'char'}, 'ch')
+    if it is not None and it[0] == 'it' and it[1] == 'vec':
+        vec_sync(I, st, it[2])
+        o = st.objs.get(it[2])
+        if o is not None and o[0] == 'Vec':
+            return conc_elem(I, st, o[3], o[2])
     if ty is not None:
         if ty['k'] == 'ref' and not (ty['to']['k'] in ('str', 'slice')):
             return I.top(st, ty['to'], 'item')
@@ -1211,6 +1294,11 @@ def m_count(I, st, args, dty, site):
     it = args[0]
     if it[0] == 'it' and it[1] == 'chars' and it[3] == 0:
         return [(st, ('i', char_count(I, st, it[2]), 'usize'))]
+    if it[0] == 'it' and it[1] == 'sub':
+        cc = char_count(I, st, it[2][2])
+        v = I.top(st, ty_of_name('usize'), 'count', lo=0, hi=D.get_iv(st, cc)[1])
+        D.rel_set(st, v[1], cc, '<=')
+        return [(st, v)]
     return [(st, I.top(st, ty_of_name('usize'), 'count', lo=0, hi=USIZE_MAX))]
 
 
@@ -1333,6 +1421,7 @@ def m_to_string(I, st, args, dty, site):
             sv = I.fresh_str(s, 'int.to_string', dmin, dmax)
             sv.ascii = True
             sv.digits = lo >= 0
+            sv.tail_digits = True     # everything after the first char is a decimal digit
         s.objs[oid] = ('String', sv)
     else:
         s.objs[oid] = ('String', I.fresh_str(s, 'to_string'))
@@ -1361,13 +1450,69 @@ def m_string_clone(I, st, args, dty, site):
     return [(st, ('obj', oid, 'std::string::String'))]
 
 
-# ---------------------------------------------------------------- Vec / HashSet (length-tracking)
+# ---------------------------------------------------------------- Vec / HashSet (length + element summary)
+# Vec object: ('Vec', len vid, elem type, element summary or None).  String elements are summarised by value as
+# ('str', StrV); `&mut` references handed out by last_mut / index_mut / iter_mut point to a fresh cell that is
+# folded back into the summary (weak update) the next time the Vec is observed.
+
+STRING = 'std::string::String'
+
+
+def abs_elem(I, st, v):
+    if v is not None and v[0] == 'obj':
+        o = st.objs.get(v[1])
+        if o is not None and o[0] == 'String':
+            return ('str', o[1])
+    return v
+
+
+def conc_elem(I, st, ev, ety):
+    """a fresh concrete element drawn from the summary"""
+    if ev is None:
+        v = I.top(st, ety, 'elem') if ety else ('top', None)
+        return v
+    if ev[0] == 'str':
+        sv = ev[1]
+        lo, hi = D.get_iv(st, sv.len)
+        nv = D.fresh_vid(st, lo, hi)
+        n = StrV(nv, lits=sv.lits, first=sv.first, ascii_=sv.ascii, digits=sv.digits)
+        if ety is not None and ety.get('k') == 'adt' and ety.get('path') == STRING:
+            return new_string_obj(I, st, n)
+        return ('str', n)
+    if ev[0] == 'i':
+        lo, hi = D.get_iv(st, ev[1])
+        return ('i', D.fresh_vid(st, lo, hi), ev[2])
+    return ev
+
+
+def vec_sync(I, st, oid):
+    links = st.objs.get(('vl', oid))
+    o = st.objs.get(oid)
+    if not links or o is None or o[0] != 'Vec':
+        return
+    ev = o[3]
+    for cell in links:
+        val = I.read_resolved(st, ('L',) + cell)
+        a = abs_elem(I, st, val)
+        ev = a if ev is None else I.join_val(st, st, st, ev, a)
+    st.objs[oid] = ('Vec', o[1], o[2], ev)
+    st.objs[('vl', oid)] = ()
+
 
 def obj_of(I, st, v):
     v = deref(I, st, v)
     if v is not None and v[0] == 'obj':
+        vec_sync(I, st, v[1])
         return v, st.objs.get(v[1])
     return None, None
+
+
+def elem_ref(I, st, h, o, mutable):
+    e = conc_elem(I, st, o[3], o[2])
+    cell = I.alloc(st, e)
+    if mutable:
+        st.objs[('vl', h[1])] = tuple(st.objs.get(('vl', h[1])) or ()) + (cell,)
+    return ('r', cell)
 
 
 @model('std::vec::Vec::<T>::new', 'std::vec::Vec::<T>::with_capacity', 'std::collections::HashSet::<T>::new')
@@ -1387,9 +1532,18 @@ def m_vec_push(I, st, args, dty, site):
     h, o = obj_of(I, st, args[0])
     if o is None or o[0] != 'Vec':
         return None
-    n = I.binop(st, 'Add', ('i', o[1], 'usize'), const_int(1, 'usize'), ty_of_name('usize'), None, None)
-    D.set_iv(st, n[1], 0, USIZE_MAX)
-    ev = args[1] if o[3] is None and D.get_iv(st, o[1]) == (0, 0) else (I.join_val(st, st, st, o[3], args[1]) if o[3] is not None else None)
+    lo, hi = D.get_iv(st, o[1])
+    if hi < USIZE_MAX:
+        n = I.binop(st, 'Add', ('i', o[1], 'usize'), const_int(1, 'usize'), ty_of_name('usize'), None, None)
+    else:
+        # a collection never holds more than isize::MAX elements (A-ALLOC): the new length is old + 1, capped
+        n = ('i', D.fresh_vid(st, lo + 1 if lo < USIZE_MAX else USIZE_MAX, USIZE_MAX), 'usize')
+    a = abs_elem(I, st, args[1])
+    empty = D.get_iv(st, o[1]) == (0, 0)
+    if o[3] is None:
+        ev = a if empty else None
+    else:
+        ev = I.join_val(st, st, st, o[3], a)
     st.objs[h[1]] = ('Vec', n[1], o[2], ev)
     return [(st, UNIT)]
 
@@ -1408,15 +1562,27 @@ def m_vec_deref(I, st, args, dty, site):
     h, o = obj_of(I, st, args[0])
     if o is None or o[0] != 'Vec':
         return None
-    return [(st, ('slice', {'len': o[1], 'elems': None, 'elem_ty': o[2], 'ident': ('vec', h[1]), 'ev': o[3], 'vec': h[1]}))]
+    return [(st, ('slice', {'len': o[1], 'elems': None, 'elem_ty': o[2], 'ident': ('vec', h[1]), 'vec': h[1],
+                            'mut': site['callee'].endswith('deref_mut')}))]
+
+
+def _slice_elem_ref(I, st, sl, mutable=False):
+    """reference to one (unknown) element of a slice"""
+    if sl.get('vec') is not None:
+        o = st.objs.get(sl['vec'])
+        if o is not None and o[0] == 'Vec':
+            vec_sync(I, st, sl['vec'])
+            o = st.objs.get(sl['vec'])
+            return elem_ref(I, st, ('obj', sl['vec']), o, mutable or sl.get('mut', False))
+    if sl.get('elems'):
+        return ('r', I.alloc(st, I.join_many(st, list(sl['elems']))))
+    e = I.top(st, sl['elem_ty'], 'elem') if sl.get('elem_ty') else ('top', None)
+    return ('r', I.alloc(st, e))
 
 
 def _slice_elem(I, st, sl):
-    if sl.get('ev') is not None:
-        return sl['ev']
-    if sl.get('elems'):
-        return I.join_many(st, list(sl['elems']))
-    return I.top(st, sl['elem_ty'], 'elem') if sl.get('elem_ty') else ('top', None)
+    r = _slice_elem_ref(I, st, sl)
+    return I.read_resolved(st, ('L',) + r[1])
 
 
 @model('core::slice::<impl [T]>::len')
@@ -1445,8 +1611,7 @@ def m_slice_first_last(I, st, args, dty, site):
     if hi >= 1:
         s1 = st.clone()
         if D.set_iv(s1, a[1]['len'], 1, hi):
-            e = _slice_elem(I, s1, a[1])
-            outs.append((s1, some(('r', I.alloc(s1, e)))))
+            outs.append((s1, some(_slice_elem_ref(I, s1, a[1], mutable=site['callee'].endswith('_mut')))))
     if lo <= 0:
         s2 = st.clone()
         if D.set_iv(s2, a[1]['len'], 0, 0):
@@ -1459,21 +1624,23 @@ def m_slice_first_last(I, st, args, dty, site):
 def m_vec_index(I, st, args, dty, site):
     base = args[0]
     if base[0] == 'slice':
-        lenv, elem = base[1]['len'], _slice_elem(I, st, base[1])
+        lenv, elem = base[1]['len'], None
     else:
         h, o = obj_of(I, st, base)
         if o is None or o[0] != 'Vec':
             return None
         lenv = o[1]
-        elem = o[3] if o[3] is not None else (I.top(st, o[2], 'elem') if o[2] else ('top', None))
+        elem = None
     idx = args[1]
     ob = site_obl(I, site, 'STDPRE')
     if _intarg(idx):
-        t, f = D.cmp_possible(st, 'Lt', idx[1], lenv)
+        t, f = D.cmp_possible(st, 'Lt', idx[1], lenv, deep=True)
         I.record(ob, not f, st, f'index in {D.get_iv(st, idx[1])}, len in {D.get_iv(st, lenv)}' if f else None, cause='index out of bounds')
         if not D.refine_cmp(st, 'Lt', idx[1], lenv):
             return []
-        return [(st, ('r', I.alloc(st, elem)))]
+        if base[0] == 'slice':
+            return [(st, _slice_elem_ref(I, st, base[1], mutable=site['callee'].endswith('index_mut')))]
+        return [(st, elem_ref(I, st, h, o, site['callee'].endswith('index_mut')))]
     # range index on a slice: start <= end <= len
     if idx[0] == 's' and idx[1] in (RANGE, RANGE_INC, 'std::ops::RangeFrom', 'std::ops::RangeTo', 'std::ops::RangeFull'):
         okp = True
@@ -1500,7 +1667,7 @@ def m_split_at(I, st, args, dty, site):
     if a[0] != 'slice' or not _intarg(mid):
         return None
     ob = site_obl(I, site, 'STDPRE')
-    t, f = D.cmp_possible(st, 'Le', mid[1], a[1]['len'])
+    t, f = D.cmp_possible(st, 'Le', mid[1], a[1]['len'], deep=True)
     I.record(ob, not f, st, f'mid in {D.get_iv(st, mid[1])}, len in {D.get_iv(st, a[1]["len"])}' if f else None, cause='split_at out of bounds')
     if not D.refine_cmp(st, 'Le', mid[1], a[1]['len']):
         return []
@@ -1741,4 +1908,510 @@ def m_saturating(I, st, args, dty, site):
         s3 = refined(False)
         if s3 is not None:
             outs.append((s3, const_int(tr[0], tn)))
+    return outs
+
+
+# ---------------------------------------------------------------- strings, part 2: facts by identity + F8 text-index safety
+
+def sfacts(st, sv):
+    f = st.objs.get(('sf', sv.ident)) or {}
+    return {'ascii': bool(sv.ascii) or bool(f.get('ascii')), 'prefixes': (f.get('prefixes') or frozenset()) | (sv.lits if sv.lits and len(sv.lits) == 1 else frozenset()),
+            'first': sv.first if sv.first is not None else f.get('first')}
+
+
+def set_sfact(st, sv, **kw):
+    f = dict(st.objs.get(('sf', sv.ident)) or {})
+    for k, v in kw.items():
+        if k == 'prefix':
+            f['prefixes'] = (f.get('prefixes') or frozenset()) | {v}
+        else:
+            f[k] = v
+    st.objs[('sf', sv.ident)] = f
+
+
+def sub_str(I, st, sv, len_vid, keep_first=False, name='sub', start=None):
+    f = sfacts(st, sv)
+    digits = sv.digits
+    if not digits and getattr(sv, 'tail_digits', False) and start is not None and start[0] == 'i' and D.get_iv(st, start[1])[0] >= 1:
+        digits = True
+    n = StrV(len_vid, ascii_=True if f['ascii'] else None, first=f['first'] if keep_first else None, digits=digits)
+    return n
+
+
+def new_string_obj(I, st, sv):
+    oid = next(I._oid)
+    st.objs[oid] = ('String', sv)
+    return ('obj', oid, 'std::string::String')
+
+
+def pattern_of(I, st, p):
+    """('char', c) | ('str', python str) | ('strs', set) | None for a Pattern argument"""
+    v = deref(I, st, p)
+    if v is None:
+        return None
+    if v[0] == 'i' and v[2] == 'char':
+        lo, hi = D.get_iv(st, v[1])
+        return ('char', chr(int(lo))) if lo == hi else ('anychar', None)
+    if v[0] == 'str':
+        if v[1].lits is not None and len(v[1].lits) == 1:
+            return ('str', next(iter(v[1].lits)))
+        if v[1].lits is not None:
+            return ('strs', v[1].lits)
+        return ('anystr', v[1])
+    if v[0] == 'obj':
+        sv = strv_of(I, st, v)
+        if sv is not None:
+            return ('anystr', sv)
+    if v[0] == 'clo':
+        return ('clo', v)
+    return None
+
+
+@model('core::str::<impl str>::starts_with', 'core::str::<impl str>::ends_with', 'core::str::<impl str>::contains')
+def m_starts_with(I, st, args, dty, site):
+    sv = strv_of(I, st, args[0])
+    pat = pattern_of(I, st, args[1])
+    which = site['callee'].rsplit('::', 1)[1]
+    if pat is not None and pat[0] == 'clo' and sv is not None:
+        s0 = st.clone()
+        I.call_closure(s0, pat[1], [I.top(s0, {'k': 'char'}, 'ch')], site)
+    if sv is None:
+        return [(st, I.top(st, {'k': 'bool'}, which))]
+    lo, hi = D.get_iv(st, sv.len)
+    outs = []
+    can_t = can_f = True
+    need = 0
+    if pat is not None and pat[0] == 'char':
+        need = len(pat[1].encode())
+    elif pat is not None and pat[0] == 'str':
+        need = len(pat[1].encode())
+        if need == 0:
+            can_f = False
+    elif pat is not None and pat[0] == 'anychar':
+        need = 1
+    if hi < need:
+        can_t = False
+    f = sfacts(st, sv)
+    if which == 'starts_with' and pat is not None and pat[0] in ('char', 'str') and f['first'] is not None and need > 0:
+        pc = pat[1][0]
+        if f['first'] != pc:
+            can_t = False
+        elif pat[0] == 'char' and lo >= 1:
+            can_f = False
+    if sv.lits is not None and pat is not None and pat[0] in ('char', 'str'):
+        test = {'starts_with': str.startswith, 'ends_with': str.endswith, 'contains': str.__contains__}[which]
+        rs = {test(l, pat[1]) for l in sv.lits}
+        can_t = can_t and (True in rs)
+        can_f = can_f and (False in rs)
+    if can_t:
+        s1 = st.clone()
+        if D.set_iv(s1, sv.len, max(lo, need), hi):
+            if which == 'starts_with' and pat is not None and pat[0] in ('char', 'str') and need > 0:
+                set_sfact(s1, sv, prefix=pat[1], first=pat[1][0])
+            outs.append((s1, const_int(1, 'bool')))
+    if can_f:
+        outs.append((st.clone(), const_int(0, 'bool')))
+    return outs
+
+
+@model('core::str::<impl str>::is_ascii')
+def m_str_is_ascii(I, st, args, dty, site):
+    sv = strv_of(I, st, args[0])
+    if sv is None:
+        return [(st, I.top(st, {'k': 'bool'}, 'is_ascii'))]
+    if sfacts(st, sv)['ascii']:
+        return [(st, const_int(1, 'bool'))]
+    s1, s2 = st.clone(), st.clone()
+    set_sfact(s1, sv, ascii=True)
+    return [(s1, const_int(1, 'bool')), (s2, const_int(0, 'bool'))]
+
+
+def _range_bounds(I, st, r, lenv):
+    """(start, end) int values of a range struct over a sequence of length lenv"""
+    if r is None or r[0] != 's':
+        return None
+    p = r[1]
+    z = const_int(0, 'usize')
+    ln = ('i', lenv, 'usize')
+    if p == 'std::ops::Range':
+        return r[2][0], r[2][1]
+    if p == 'std::ops::RangeFrom':
+        return r[2][0], ln
+    if p == 'std::ops::RangeTo':
+        return z, r[2][0]
+    if p == 'std::ops::RangeFull':
+        return z, ln
+    if p == 'std::ops::RangeInclusive':
+        e = I.binop(st, 'Add', r[2][1], const_int(1, 'usize'), ty_of_name('usize'), None, None)
+        return r[2][0], e
+    if p == 'std::ops::RangeToInclusive':
+        e = I.binop(st, 'Add', r[2][0], const_int(1, 'usize'), ty_of_name('usize'), None, None)
+        return z, e
+    return None
+
+
+def is_boundary(st, sv, v):
+    """F8: is the byte index value v provably a char boundary of sv?"""
+    f = sfacts(st, sv)
+    if f['ascii']:
+        return True
+    if v[0] != 'i':
+        return False
+    lo, hi = D.get_iv(st, v[1])
+    if lo == hi == 0 or v[1] == sv.len:
+        return True
+    if D.rel_get(st, v[1], sv.len) <= frozenset('='):
+        return True
+    if lo == hi and any(len(p.encode()) == lo for p in f['prefixes']):
+        return True
+    pr = D.PROV.get(v[1])
+    if pr is not None and pr[0] == 'bytes' and pr[1] == sv.ident:
+        return True
+    return False
+
+
+def _str_range(I, st, sv, r, site, checked):
+    """common part of Index / get on str: returns (ok_state_or_None, substring value, failure possible)"""
+    b = _range_bounds(I, st, r, sv.len)
+    if b is None or b[0][0] != 'i' or b[1][0] != 'i':
+        return None
+    a, e = b
+    t1, f1 = D.cmp_possible(st, 'Le', a[1], e[1], deep=True)
+    t2, f2 = D.cmp_possible(st, 'Le', e[1], sv.len, deep=True)
+    inb = not f1 and not f2
+    bound = is_boundary(st, sv, a) and is_boundary(st, sv, e)
+    s1 = st.clone()
+    feas = D.refine_cmp(s1, 'Le', a[1], e[1]) and D.refine_cmp(s1, 'Le', e[1], sv.len)
+    sub = None
+    if feas:
+        n = I.binop(s1, 'Sub', ('i', e[1], 'usize'), ('i', a[1], 'usize'), ty_of_name('usize'), None, None)
+        if n[0] == 'i':
+            D.set_iv(s1, n[1], 0, USIZE_MAX)
+            alo, ahi = D.get_iv(s1, a[1])
+            sub = ('str', sub_str(I, s1, sv, n[1], keep_first=(alo == ahi == 0), start=a))
+    return (s1 if feas else None), sub, inb and bound, (a, e)
+
+
+@model('core::str::traits::<impl std::ops::Index<I> for str>::index', '<std::string::String as std::ops::Index<I>>::index',
+       'core::str::traits::<impl std::ops::IndexMut<I> for str>::index_mut')
+def m_str_index(I, st, args, dty, site):
+    sv = strv_of(I, st, args[0])
+    o = site_obl(I, site, 'STDPRE')
+    if sv is None:
+        I.record(o, False, st, 'range index on a string the analysis cannot see', cause='str range index')
+        return [(st, ('str', I.fresh_str(st, 'idx')))]
+    r = _str_range(I, st, sv, args[1], site, False)
+    if r is None:
+        I.record(o, False, st, 'range index of unknown shape on a string', cause='str range index')
+        return [(st, ('str', I.fresh_str(st, 'idx')))]
+    s1, sub, safe, (a, e) = r
+    I.record(o, safe, st, None if safe else
+             f'byte range {D.get_iv(st, a[1])}..{D.get_iv(st, e[1])} of a string of byte length {D.get_iv(st, sv.len)}: not provably in bounds on char boundaries '
+             f'(ascii known: {sfacts(st, sv)["ascii"]})', cause='str range index')
+    if s1 is None or sub is None:
+        return []
+    return [(s1, sub)]
+
+
+@model('core::str::<impl str>::get')
+def m_str_get(I, st, args, dty, site):
+    sv = strv_of(I, st, args[0])
+    if sv is None:
+        s1, s2 = st.clone(), st.clone()
+        return [(s1, none()), (s2, some(('str', I.fresh_str(s2, 'get'))))]
+    r = _str_range(I, st, sv, args[1], site, True)
+    if r is None:
+        s1, s2 = st.clone(), st.clone()
+        return [(s1, none()), (s2, some(('str', I.fresh_str(s2, 'get'))))]
+    s1, sub, safe, _ = r
+    outs = []
+    if s1 is not None and sub is not None:
+        outs.append((s1, some(sub)))
+    if not safe:
+        outs.append((st.clone(), none()))
+    return outs
+
+
+@model('std::string::String::replace_range')
+def m_replace_range(I, st, args, dty, site):
+    h, o_ = obj_of(I, st, args[0])
+    ob = site_obl(I, site, 'STDPRE')
+    sv = o_[1] if o_ is not None and o_[0] == 'String' else None
+    if sv is None:
+        I.record(ob, False, st, 'replace_range on an unknown string', cause='String::replace_range')
+        return [(st, UNIT)]
+    r = _str_range(I, st, sv, args[1], site, False)
+    safe = r is not None and r[2]
+    I.record(ob, safe, st, None if safe else 'replace_range: range not provably in bounds on char boundaries', cause='String::replace_range')
+    st.objs[h[1]] = ('String', I.fresh_str(st, 'replaced'))
+    return [(st, UNIT)]
+
+
+@model('std::string::String::push')
+def m_string_push(I, st, args, dty, site):
+    h, o_ = obj_of(I, st, args[0])
+    if o_ is None or o_[0] != 'String':
+        return None
+    sv = o_[1]
+    lo, hi = D.get_iv(st, sv.len)
+    c = args[1]
+    cl, ch = D.get_iv(st, c[1]) if c[0] == 'i' else (0, 0x10FFFF)
+    w = 1 if ch < 128 else 4
+    nv = D.fresh_vid(st, lo + 1, min(hi + w, USIZE_MAX))
+    f = sfacts(st, sv)
+    n = StrV(nv, ascii_=True if (f['ascii'] and ch < 128) else None, first=f['first'] if lo >= 1 else (chr(int(cl)) if cl == ch and hi == 0 else None))
+    st.objs[h[1]] = ('String', n)
+    return [(st, UNIT)]
+
+
+@model('std::string::String::push_str')
+def m_string_push_str(I, st, args, dty, site):
+    h, o_ = obj_of(I, st, args[0])
+    if o_ is None or o_[0] != 'String':
+        return None
+    sv = o_[1]
+    ov = strv_of(I, st, args[1])
+    lo, hi = D.get_iv(st, sv.len)
+    l2, h2 = D.get_iv(st, ov.len) if ov is not None else (0, USIZE_MAX)
+    nv = D.fresh_vid(st, lo + l2, min(hi + h2, USIZE_MAX))
+    st.objs[h[1]] = ('String', StrV(nv, ascii_=True if (sfacts(st, sv)['ascii'] and ov is not None and sfacts(st, ov)['ascii']) else None))
+    return [(st, UNIT)]
+
+
+@model('std::string::String::new', '<std::string::String as std::default::Default>::default')
+def m_string_new(I, st, args, dty, site):
+    return [(st, new_string_obj(I, st, I.lit_str(st, '')))]
+
+
+@model('std::str::<impl str>::replace', 'std::str::<impl str>::to_lowercase', 'std::str::<impl str>::to_uppercase',
+       'std::str::<impl str>::to_ascii_lowercase', 'std::str::<impl str>::repeat')
+def m_str_to_new_string(I, st, args, dty, site):
+    sv = strv_of(I, st, args[0])
+    n = I.fresh_str(st, site['callee'].rsplit('::', 1)[1])
+    if sv is not None and site['callee'].endswith('replace') and len(args) >= 3:
+        to = strv_of(I, st, args[2])
+        frm = pattern_of(I, st, args[1])
+        if sfacts(st, sv)['ascii'] and to is not None and sfacts(st, to)['ascii']:
+            n.ascii = True
+        # replacing one char by a string of at most the same byte length cannot grow the string
+        if frm is not None and frm[0] == 'char' and to is not None and to.lits and all(len(t.encode()) <= len(frm[1].encode()) for t in to.lits):
+            lo, hi = D.get_iv(st, sv.len)
+            D.set_iv(st, n.len, 0, hi)
+    return [(st, new_string_obj(I, st, n))]
+
+
+@model('core::str::<impl str>::parse')
+def m_str_parse(I, st, args, dty, site):
+    sv = strv_of(I, st, args[0])
+    if dty is None or dty.get('k') != 'adt' or dty['path'] != RESULT:
+        return None
+    tgt = dty['args'][0]
+    tn = tyname(tgt)
+    s1, s2 = st.clone(), st.clone()
+    outs = []
+    if tn:
+        tr = range_of_name(tn)
+        lo, hi = tr
+        if sv is not None:
+            ll, lh = D.get_iv(s1, sv.len)
+            if sv.nchars is not None:
+                lh = min(lh, sv.nchars[1])      # a string that parses as an integer is ASCII: bytes == chars
+            if lh != INF and lh <= 38:
+                m = 10 ** int(lh) - 1
+                lo, hi = max(lo, -m), min(hi, m)
+            if not D.set_iv(s1, sv.len, max(ll, 1), D.get_iv(s1, sv.len)[1]):
+                s1 = None
+        if s1 is not None:
+            v = I.top(s1, tgt, 'parsed', lo=max(lo, 0) if (sv is not None and sv.digits) else lo, hi=hi)
+            outs.append((s1, ok(v)))
+        sure = False
+        if sv is not None and sv.digits:
+            ll, lh = D.get_iv(st, sv.len)
+            sure = ll >= 1 and lh != INF and 10 ** int(lh) - 1 <= tr[1]   # non-empty run of digits that fits the type
+        if not sure:
+            outs.append((s2, err(('s', 'std::num::ParseIntError', (), ('str::parse',)))))
+        return outs
+    if tgt.get('k') == 'adt' and tgt['path'] == 'std::string::String':
+        return [(st, ok(new_string_obj(I, st, sv if sv is not None else I.fresh_str(st, 'parsed'))))]
+    # FromStr of a crate type
+    if tgt.get('k') == 'adt':
+        cand = f"<{tgt['path']} as std::str::FromStr>::from_str"
+        if cand in I.bodies:
+            return I.call_body(st, cand, [args[0]], site)
+    return [(s1, ok(I.top(s1, tgt, 'parsed'))), (s2, err(I.top(s2, dty['args'][1], 'perr')))]
+
+
+@model('core::str::<impl str>::strip_prefix', 'core::str::<impl str>::strip_suffix')
+def m_strip(I, st, args, dty, site):
+    sv = strv_of(I, st, args[0])
+    pat = pattern_of(I, st, args[1])
+    if sv is None:
+        s1, s2 = st.clone(), st.clone()
+        return [(s1, none()), (s2, some(('str', I.fresh_str(s2, 'strip'))))]
+    lo, hi = D.get_iv(st, sv.len)
+    need = None
+    if pat is not None and pat[0] in ('char', 'str'):
+        need = (len(pat[1].encode()), len(pat[1].encode()))
+    elif pat is not None and pat[0] == 'anystr':
+        need = D.get_iv(st, pat[1].len)
+    if site['callee'].endswith('strip_suffix') and pat is not None and pat[0] == 'anystr' and pat[1].rest_of is not None and pat[1].rest_of[0] == sv.ident:
+        n = pat[1].rest_of[1]
+        nv = D.fresh_vid(st, n, 4 * n)
+        head = sub_str(I, st, sv, nv, keep_first=True)
+        head.nchars = (n, n)
+        return [(st, some(('str', head)))]      # the tail of a string is always a suffix of it
+    outs = [(st.clone(), none())]
+    if need is None or hi >= need[0]:
+        s2 = st.clone()
+        nl = (max(lo - (need[1] if need else hi), 0), hi - (need[0] if need else 0))
+        nv = D.fresh_vid(s2, int(nl[0]), int(nl[1]) if nl[1] != INF else USIZE_MAX)
+        D.rel_set(s2, nv, sv.len, '<=')
+        outs.append((s2, some(('str', sub_str(I, s2, sv, nv, keep_first=site['callee'].endswith('suffix'))))))
+    return outs
+
+
+@model("std::str::Chars::<'a>::as_str")
+def m_chars_as_str(I, st, args, dty, site):
+    it = deref(I, st, args[0])
+    if it is None or it[0] != 'it' or it[1] != 'chars':
+        return [(st, ('str', I.fresh_str(st, 'rest')))]
+    sv = it[2]
+    if it[3] == 0:
+        return [(st, ('str', sv))]
+    lo, hi = D.get_iv(st, sv.len)
+    n = it[3]
+    nv = D.fresh_vid(st, max(lo - 4 * n, 0) if isinstance(n, int) and lo != -INF else 0, (hi - n) if isinstance(n, int) else hi)
+    D.rel_set(st, nv, sv.len, '<=')
+    rest = sub_str(I, st, sv, nv)
+    if isinstance(n, int):
+        rest.rest_of = (sv.ident, n)
+    return [(st, ('str', rest))]
+
+
+@model('core::str::traits::<impl std::cmp::PartialEq for str>::eq', '<std::string::String as std::cmp::PartialEq>::eq',
+       '<std::string::String as std::cmp::PartialEq<str>>::eq', "<std::string::String as std::cmp::PartialEq<&'a str>>::eq",
+       'core::str::traits::<impl std::cmp::PartialEq for str>::ne')
+def m_str_eq(I, st, args, dty, site):
+    x, y = strv_of(I, st, args[0]), strv_of(I, st, args[1])
+    if x is None or y is None:
+        return [(st, I.top(st, {'k': 'bool'}, 'streq'))]
+    return str_eq(I, st, x, y, site['callee'].endswith('::ne'))
+
+
+@model('core::str::<impl str>::split', 'core::str::<impl str>::split_whitespace', 'core::str::<impl str>::lines',
+       'core::str::<impl str>::char_indices', 'core::str::<impl str>::bytes', 'core::str::<impl str>::splitn')
+def m_str_split(I, st, args, dty, site):
+    sv = strv_of(I, st, args[0])
+    which = site['callee'].rsplit('::', 1)[1]
+    if which == 'bytes':
+        return [(st, ('it', 'unk', ty_of_name('u8'), sv.len if sv is not None else None))]
+    if which == 'char_indices':
+        return [(st, ('it', 'unk', {'k': 'tuple', 'elems': [ty_of_name('usize'), {'k': 'char'}]}, sv.len if sv is not None else None))]
+    return [(st, ('it', 'strs', sv))]
+
+
+@model('core::str::<impl str>::trim_matches', 'core::str::<impl str>::trim', 'core::str::<impl str>::trim_start', 'core::str::<impl str>::trim_end',
+       'core::str::<impl str>::trim_start_matches', 'core::str::<impl str>::trim_end_matches')
+def m_trim(I, st, args, dty, site):
+    sv = strv_of(I, st, args[0])
+    if len(args) > 1:
+        pat = pattern_of(I, st, args[1])
+        if pat is not None and pat[0] == 'clo':
+            s0 = st.clone()
+            I.call_closure(s0, pat[1], [I.top(s0, {'k': 'char'}, 'ch')], site)
+    if sv is None:
+        return [(st, ('str', I.fresh_str(st, 'trim')))]
+    lo, hi = D.get_iv(st, sv.len)
+    nv = D.fresh_vid(st, 0, hi)
+    D.rel_set(st, nv, sv.len, '<=')
+    return [(st, ('str', sub_str(I, st, sv, nv)))]
+
+
+@model('std::str::from_utf8', 'core::str::from_utf8')
+def m_from_utf8(I, st, args, dty, site):
+    a = args[0]
+    s1, s2 = st.clone(), st.clone()
+    if a[0] == 'slice':
+        sv = StrV(a[1]['len'])
+        if a[1].get('ascii'):
+            sv.ascii = True
+    else:
+        sv = I.fresh_str(s1, 'utf8')
+    e = ('s', 'std::str::Utf8Error', (), ('str::from_utf8',))
+    if a[0] == 'slice' and a[1].get('ascii'):
+        return [(s1, ok(('str', sv)))]
+    return [(s1, ok(('str', sv))), (s2, err(e))]
+
+
+@model('<std::string::String as std::convert::From<&str>>::from', '<str as std::borrow::ToOwned>::to_owned', 'std::borrow::ToOwned::to_owned',
+       '<std::string::String as std::convert::From<&mut str>>::from')
+def m_string_from(I, st, args, dty, site):
+    sv = strv_of(I, st, args[0])
+    return [(st, new_string_obj(I, st, sv if sv is not None else I.fresh_str(st, 'from')))]
+
+
+@model('std::iter::Iterator::take_while_count_dummy')
+def _unused(I, st, args, dty, site):
+    return None
+
+
+@model('std::cmp::Ord::min', 'std::cmp::Ord::max')
+def m_ord_minmax(I, st, args, dty, site):
+    a, b = args
+    if not (_intarg(a) and _intarg(b)):
+        return m_minmax(I, st, args, dty, site)
+    is_min = site['callee'].endswith('min')
+    outs = []
+    # result is one of the operands: split on the comparison so that the result keeps its identity
+    s1 = st.clone()
+    if D.refine_cmp(s1, 'Le' if is_min else 'Ge', a[1], b[1]):
+        outs.append((s1, a))
+    s2 = st.clone()
+    if D.refine_cmp(s2, 'Gt' if is_min else 'Lt', a[1], b[1]):
+        outs.append((s2, b))
+    # enumerate small results (they are typically widths / lengths that later code depends on exactly)
+    final = []
+    for s, v in outs:
+        lo, hi = D.get_iv(s, v[1])
+        if lo != -INF and hi != INF and 0 < hi - lo <= 16:
+            for k in range(int(lo), int(hi) + 1):
+                sk = s.clone()
+                if D.set_iv(sk, v[1], k, k):
+                    final.append((sk, v))
+        else:
+            final.append((s, v))
+    return final
+
+
+@model('std::option::Option::<T>::map_or', 'std::result::Result::<T, E>::map_or')
+def m_map_or(I, st, args, dty, site):
+    v, dflt, clo = args[0], args[1], args[2]
+    if v[0] != 'e':
+        return None
+    okv = 1 if v[1] == OPTION else 0
+    outs = []
+    if okv in v[2]:
+        r = I.call_closure(st, clo, [v[2][okv][0]], site)
+        if r is None:
+            s2 = st.clone()
+            outs.append((s2, I.top(s2, dty, 'map_or')))
+        else:
+            outs.extend(r)
+    if (1 - okv) in v[2]:
+        outs.append((st.clone(), dflt))
+    return outs
+
+
+@model('std::option::Option::<T>::map_or_else')
+def m_map_or_else(I, st, args, dty, site):
+    v, dclo, clo = args[0], args[1], args[2]
+    if v[0] != 'e':
+        return None
+    outs = []
+    if 1 in v[2]:
+        r = I.call_closure(st, clo, [v[2][1][0]], site)
+        outs.extend(r if r is not None else [(st.clone(), ('top', None))])
+    if 0 in v[2]:
+        r = I.call_closure(st, dclo, [], site)
+        outs.extend(r if r is not None else [(st.clone(), ('top', None))])
     return outs
